@@ -320,12 +320,14 @@ func (sc *c18Scenario) Run(s *simrt.Sim) {
 			failAt = -1
 		}
 	}
-	sc.extra = append(sc.extra, opPanics(h)...)
 }
 
 func (sc *c18Scenario) Check(res *simrt.Result) []Violation {
 	var vs []Violation
 	vs = append(vs, goroutinePanics(res)...)
+	if sc.h != nil {
+		vs = append(vs, opPanics(sc.h)...)
+	}
 	vs = append(vs, sc.extra...)
 	if res.Reason != "done" && len(vs) == 0 {
 		vs = append(vs, Violation{Clause: "hang", Fingerprint: "history-did-not-finish", Detail: "reason " + res.Reason})
